@@ -129,6 +129,16 @@ CHECKS = {
             "cache is exercised; evaluated over single buffers and contiguous multi-block iterators under sanitizers.",
             "Trusted: Python hashlib/zlib; the ported `ent` formulas for serial_correlation/monte_carlo_pi; tolerances.",
             "DESIGN.md section 2, C14"),
+    "C17": ("fault_enumeration",
+            "enumeration of cut points and single-field corruptions of saved files; return-code oracle plus differential scan of any accepted damaged file under ASan",
+            "Files written by the library are truncated at every region boundary +-2, at relocation-entry boundaries and "
+            "at sampled interior points (every prefix length for files <= 64 KiB in the thorough tier), and every header "
+            "and buffer-table field is set to boundary values; each damaged file is loaded in its own harness case under "
+            "ASan+UBSan+LSan, must be rejected with an error and no rule set, and if accepted must behave exactly like "
+            "the intact rules.",
+            "Trusted: harness; the file layout parsed in checks/c17.py. Known finding: cuts inside the trailing "
+            "relocation table are accepted (format has no count/terminator).",
+            "DESIGN.md section 2, C17"),
 }
 
 NOT_YET = "check not built yet in this round (planned in DESIGN.md section 2); nothing is claimed for it"
